@@ -132,6 +132,17 @@ def batch(chk, tier, race):
         s = ec.inv_n(1 + d) * (kk - r * d) % N
         calls.append(dict(k="verify", a=pubi, b=ei, c=put(b32(r)), d=put(b32(s))))
         calls.append(dict(k="derive", a=priv, b=0, c=0, d=0))
+        # the id-level entry points, with a DIFFERENT identity per call (anything one call parks about "the" user
+        # hash - a scratch ZA, a cached identity - meets another call's)
+        pub = ec.mul(d)
+        idb = rb(rng, rng.choice([0, 5, 16, 16, 40]))
+        pidi = put(b32(pub[0]) + b32(pub[1]) + idb)
+        msg = rb(rng, rng.choice([0, 14, 60]))
+        mi = put(msg)
+        k2 = rscalar(rng)
+        calls.append(dict(k="signid", a=priv, b=pidi, c=put(b32(k2)), d=mi))
+        calls.append(dict(k="za", a=pidi, b=0, c=0, d=0))
+        calls.append(dict(k="verifyid", a=pidi, b=mi, c=put(b32(rscalar(rng))), d=put(b32(rscalar(rng)))))
         calls.append(dict(k="sm3", a=put(rb(rng, rng.choice([0, 55, 64, 200]))), b=0, c=0, d=0))
     rng.shuffle(calls)
     return dict(pool=pool, key=key, calls=calls, workers=16, reps=(20 if tier == "quick" else 2000))
@@ -180,6 +191,24 @@ def expand(pool, key, calls, results):
             sm2e.append(dict(sc=s, op="sm2.verify", kind="hashed", pubx=pk[:32], puby=pk[32:], e=pool[call["b"]],
                              r=pool[call["c"]], s=pool[call["d"]], ok=res.get("ok", False), err=res.get("err", ""),
                              ins_after=[pk[:32], pk[32:], pool[call["c"]], pool[call["d"]], pool[call["b"]]], panic=pa))
+        elif k == "signid":
+            s = scen(sm2e, "concurrent_signid")
+            pk = pool[call["b"]]
+            sm2e.append(dict(sc=s, op="sm2.sign", kind="id", priv=pool[call["a"]], id=pk[64:], pubx=pk[:32], puby=pk[32:64],
+                             msg=pool[call["d"]], script=[dict(d=pool[call["c"]], err="")], r=res.get("r", []), s=res.get("s", []),
+                             err=res.get("err", ""), nil_out=False, reads=[[32, 32, ""]], priv_after=pool[call["a"]],
+                             ins_after=[pk[64:], pk[:32], pk[32:64], pool[call["d"]]], panic=pa))
+        elif k == "verifyid":
+            s = scen(sm2e, "concurrent_verifyid")
+            pk = pool[call["a"]]
+            sm2e.append(dict(sc=s, op="sm2.verify", kind="id", id=pk[64:], pubx=pk[:32], puby=pk[32:64], msg=pool[call["b"]],
+                             r=pool[call["c"]], s=pool[call["d"]], ok=res.get("ok", False), err=res.get("err", ""),
+                             ins_after=[pk[:32], pk[32:64], pool[call["c"]], pool[call["d"]], pk[64:], pool[call["b"]]], panic=pa))
+        elif k == "za":
+            s = scen(sm2e, "concurrent_za")
+            pk = pool[call["a"]]
+            sm2e.append(dict(sc=s, op="sm2.za", id=pk[64:], pubx=pk[:32], puby=pk[32:64], za=res.get("out", []),
+                             err=res.get("err", ""), ins_after=[pk[64:], pk[:32], pk[32:64]], panic=pa))
         elif k == "derive":
             s = scen(sm2e, "concurrent_derive")
             sm2e.append(dict(sc=s, op="sm2.derivepublic", priv=pool[call["a"]], x=res.get("x", []), y=res.get("y", []),
